@@ -481,9 +481,24 @@ func runCase(c *caseSpec, inject bool) *result {
 	a := newRig(c, "a")
 	b := newRig(c, "b")
 	cfgMu.Unlock()
-	defer a.s.Close()
-	defer b.s.Close()
 	res := &result{}
+	defer func() {
+		// A panic that escaped from WriteRtpPacket may have left a stream lock held
+		// (Close would then block for ever): close in the background and wait only
+		// briefly, the verdict does not depend on it.
+		for _, s := range []*media.Stream{a.s, b.s} {
+			done := make(chan struct{})
+			go func(s *media.Stream) { defer close(done); defer func() { recover() }(); s.Close() }(s)
+			wait := 2 * time.Second
+			if res.Escaped != nil || res.Hang != "" {
+				wait = 10 * time.Millisecond
+			}
+			select {
+			case <-done:
+			case <-time.After(wait):
+			}
+		}
+	}()
 	res.HasFLV = a.s.Video.Codec == "H264" || a.s.Video.Codec == "H265"
 	hlsStream := hlsOf(a.s) != nil
 	res.HasHLS = hlsStream
